@@ -480,6 +480,9 @@ func chainRunOnce(s *Summary, c *chainCase, sp chainSplit, outerPrefix string, c
 		case "notfound": // global middleware registered before AND after the fallback handlers
 			k := (n - 1) / 2
 			r.Use(hs[:k/2]...)
+			if n%2 == 0 {
+				r.NotFound(decoyMw, decoyMw) // installed first and then REPLACED: must never run
+			}
 			r.NotFound(hs[k:]...)
 			r.Use(hs[k/2 : k]...)
 			r.GET("/other", nopHandler)
@@ -524,6 +527,9 @@ func chainRunOnce(s *Summary, c *chainCase, sp chainSplit, outerPrefix string, c
 		case "notallowed":
 			k := (n - 1) / 2
 			r.Use(hs[:k/2]...)
+			if n%2 == 1 {
+				r.NotAllowed(decoyMw) // installed first and then REPLACED: must never run
+			}
 			r.NotAllowed(hs[k:]...)
 			r.NotFound(func(cx *rux.Context) { cur.log = append(cur.log, []any{"in", -2, false}) }) // must not answer a 405
 			r.Use(hs[k/2 : k]...)
